@@ -941,6 +941,9 @@ class Interp(object):
                         return top_av(True, "class attribute", self.atoms)
             self.emit("attr-read", fr, node, obj=o.id, attr=attr, via="missing", is_param=o.is_param)
             return top_av(True, "attribute %s not modelled on object" % attr, self.atoms)
+        if base.kind == K_OBJ and base.note == "dtype" and attr == "names":
+            e = AV(kind=K_STR, tags=frozenset(["dtype-names"]))
+            return AV(kind=K_TUPLE, elem=e, tags=frozenset(["dtype-names"]))
         if base.kind == K_MODULE and base.ref:
             r = self.P.module_attr(base.ref[1], attr) if base.ref[1] in self.P.modules else ("lib", base.ref[1] + "." + attr)
             if r is not None:
